@@ -303,8 +303,121 @@ def load_order(chk):
     chk.check(okret and okuse and okloop and okex, 'C02-R7', CAT, CLS + '_read_halo_info', 'fields loaded once each in dependency order; temporary columns exist before loading', '',
               f'returns ok={okret}; used ok={okuse}; load loop ok={okloop}; temporaries created first={okex}', node=rh)
     lf = src.func(CAT, CLS + '_load_halo_field')
-    tl = [unparse(s) for s in walk_no_nested(lf) if isinstance(s, ast.stmt)]
-    okst = 'halos[field][:] = column' in tl and 'halos[k][:] = column[k]' in tl and 'assert field in column' in tl and \
-        'column = self.halo_field_loaders[pat](match, rawhalos, halos)' in tl
+    okst, why_st = _store_cases(lf)
     chk.check(okst, 'C02-R7', CAT, CLS + '_load_halo_field', 'loader result stored in place into the column of its own name', '',
-              'the loaded values are no longer written in place into halos[field] (or every key of a multi-column result)', node=lf)
+              'the loaded values are no longer written in place into halos[field] (or every key of a multi-column result): ' + why_st, node=lf)
+
+
+def _store_cases(lf):
+    """Case analysis of what _load_halo_field does with the loader's result: for a single array it must store it in
+    place into halos[field] and report [field]; for a dict it must store every entry in place under its own key and
+    report the keys.  The statements after the loader call are interpreted for both cases (isinstance decided per case)."""
+    call = None
+    for n in walk_no_nested(lf):
+        if isinstance(n, ast.Assign) and isinstance(n.value, ast.Call) and isinstance(n.value.func, ast.Subscript) \
+                and 'halo_field_loaders' in unparse(n.value.func.value) and len(n.targets) == 1 and isinstance(n.targets[0], ast.Name):
+            call = n
+    if call is None:
+        return False, 'loader call not found'
+    blk = getattr(call, '_parent', None)
+    body = None
+    for f in ('body', 'orelse'):
+        b = getattr(blk, f, None)
+        if isinstance(b, list) and call in b:
+            body = b[b.index(call) + 1:]
+    if body is None:
+        return False, 'loader call not in a statement block'
+    res_name = call.targets[0].id
+    argn = [a.arg for a in lf.args.args]
+    tab, fld = argn[1], argn[3] if len(argn) > 3 else 'field'
+    for a in argn:
+        if a == 'field':
+            fld = a
+    out = {}
+    for case in ('array', 'dict'):
+        env = {res_name: ('obj', res_name) if case == 'array' else ('symdict', res_name), fld: ('obj', fld)}
+        stores, loaded, bad = [], [], []
+
+        def ev(e):
+            if isinstance(e, ast.Name):
+                return env.get(e.id, ('obj', e.id))
+            if isinstance(e, ast.IfExp):
+                c = ev(e.test)
+                if c in (True, False):
+                    return ev(e.body if c else e.orelse)
+                return ('obj', unparse(e))
+            if isinstance(e, ast.Call) and isinstance(e.func, ast.Name) and e.func.id == 'isinstance' and len(e.args) == 2 and unparse(e.args[1]) == 'dict':
+                v = ev(e.args[0])
+                return v[0] in ('symdict', 'dict')
+            if isinstance(e, ast.UnaryOp) and isinstance(e.op, ast.Not):
+                c = ev(e.operand)
+                return (not c) if c in (True, False) else ('obj', unparse(e))
+            if isinstance(e, ast.Dict):
+                return ('dict', [(ev(k), ev(v)) for k, v in zip(e.keys, e.values)])
+            if isinstance(e, ast.Call) and isinstance(e.func, ast.Name) and e.func.id in ('list', 'tuple', 'sorted') and len(e.args) == 1:
+                v = ev(e.args[0])
+                return ('keys', v) if v[0] in ('symdict', 'dict') else ('obj', unparse(e))
+            if isinstance(e, ast.Call) and isinstance(e.func, ast.Attribute) and e.func.attr == 'keys' and not e.args:
+                v = ev(e.func.value)
+                return ('keys', v) if v[0] in ('symdict', 'dict') else ('obj', unparse(e))
+            if isinstance(e, ast.List):
+                return ('list', [ev(x) for x in e.elts])
+            if isinstance(e, ast.Subscript):
+                b, k = ev(e.value), (ev(e.slice) if not isinstance(e.slice, ast.Slice) else None)
+                if b[0] == 'symdict' and k is not None:
+                    return ('elem', b[1], k)
+                if b[0] == 'dict' and k is not None:
+                    for kk, vv in b[1]:
+                        if kk == k:
+                            return vv
+                    return ('obj', unparse(e))
+                return ('obj', unparse(e))
+            return ('obj', unparse(e))
+
+        def run(stmts):
+            for st in stmts:
+                if isinstance(st, ast.If):
+                    c = ev(st.test)
+                    if c is True:
+                        run(st.body)
+                    elif c is False:
+                        run(st.orelse)
+                    else:
+                        run(st.body)
+                        run(st.orelse)
+                elif isinstance(st, ast.For) and isinstance(st.target, ast.Name):
+                    it = ev(st.iter)
+                    if it[0] == 'keys':
+                        it = it[1]
+                    if it[0] == 'symdict':
+                        env[st.target.id] = ('key', it[1])
+                        run(st.body)
+                    elif it[0] == 'dict':
+                        for kk, _ in it[1]:
+                            env[st.target.id] = kk
+                            run(st.body)
+                    else:
+                        bad.append(unparse(st.iter))
+                elif isinstance(st, ast.Assign) and len(st.targets) == 1 and isinstance(st.targets[0], ast.Name):
+                    env[st.targets[0].id] = ev(st.value)
+                elif isinstance(st, ast.Assign) and len(st.targets) == 1 and isinstance(st.targets[0], ast.Subscript):
+                    t = st.targets[0]
+                    inplace = isinstance(t.slice, ast.Slice) and isinstance(t.value, ast.Subscript) and unparse(t.value.value) == tab
+                    if inplace:
+                        stores.append((ev(t.value.slice), ev(st.value)))
+                    elif unparse(t.value) == tab:
+                        bad.append(f'{unparse(t)} rebinds the column instead of filling it')
+                elif isinstance(st, ast.AugAssign) and isinstance(st.target, ast.Name) and isinstance(st.op, ast.Add):
+                    loaded.append(ev(st.value))
+                elif isinstance(st, ast.Expr) and isinstance(st.value, ast.Call) and isinstance(st.value.func, ast.Attribute) and st.value.func.attr in ('append', 'extend'):
+                    v = ev(st.value.args[0])
+                    loaded.append(('list', [v]) if st.value.func.attr == 'append' else v)
+        run(body)
+        out[case] = (stores, loaded, bad)
+    sa, la, ba = out['array']
+    sd, ld, bd = out['dict']
+    ok_a = sa == [(('obj', fld), ('obj', res_name))] and la in ([('list', [('obj', fld)])], [('keys', ('dict', [(('obj', fld), ('obj', res_name))]))]) and not ba
+    ok_d = sd == [(('key', res_name), ('elem', res_name, ('key', res_name)))] and ld == [('keys', ('symdict', res_name))] and not bd
+    if ok_a and ok_d:
+        return True, ''
+    return False, f'single-array result: stores {sa}, reports {la} {ba}; dict result: stores {sd}, reports {ld} {bd}'
